@@ -42,8 +42,8 @@ CHECKS = {
          "ValidateBlockBytes, ValidateStrListBytes, StrListDecoder.Read/ReadBytes, ReadBlockFrom, ReadBlockIndex, UintListDecoder.Read, PackfileReader, ReadPktLine on ALL byte strings of length N <= 8..14 (quick) / 12..40 (thorough): outcome must be value-or-error, steps bounded, no single allocation > 1 MiB. Values >= 24 at sites needing a concrete size are explored through boundary representatives only (stated as a cut).", "4 C17"),
  "C18": ("model_checking", "bounded symbolic execution of the stream decoders over a reader whose per-call read sizes and data+EOF delivery are choice points",
          "Packfile (2 objects) and pkt-lines: every chunking; commit/table/block/block index/uint list/string list: every placement of <= 1-3 short reads plus data+EOF; result must equal decoding from bytes.Reader.", "4 C18"),
- "C09": ("model_checking", "bounded symbolic execution of the real client fetch session (UploadPackSession state machine, negotiation, packfile receive) against a harness-built server made of the repository's own ClosedSetsFinder and ObjectSender, on all small DAG shapes x client states; SMT decides each path",
-         "FETCH direction at session level only: for every DAG of n <= 2-3 (quick) / 3-4 (thorough) commits, 1-2 server tips, every ancestor-closed set of commits the client already has, 1-2 haves per round trip, depth 0-2 and a symbolic packfile size limit (so that the transfer splits into several round trips), after the session the client holds every commit reachable from the fetched tips, byte-identical, with tables, blocks, block indices and table indices for the commits within depth, and nothing it had is changed; the session terminates. Go map iteration order inside the negotiator is a choice point in a second obligation. The real HTTP server, push (ReceivePackSession), pull, ref updates after the session (gated under C10) and CLI are outside: they are exercised only by the native replay (httptest) or not at all.", "8 C09"),
+ "C09": ("model_checking", "bounded symbolic execution of the real client sessions - UploadPackSession (fetch) and ReceivePackSession (push): state machines, negotiation, table ACKs, ObjectSender/ObjectReceiver, gzip, packfile splitting - against harness-built reference servers made of the repository's own ClosedSetsFinder, ObjectSender and ObjectReceiver, on all small DAG shapes x states of the other side; SMT decides each path",
+         "Session level. FETCH: for every DAG of n <= 2-3 (quick) / 3-4 (thorough) commits, 1-2 server tips, every ancestor-closed set of commits the client already has, 1-2 haves per round trip, depth 0-2 and a symbolic packfile size limit (the transfer splits into several packfiles - witnessed), after the session the client holds every commit reachable from the fetched tips, byte-identical, with tables, blocks, block indices and table indices for the commits within depth, nothing it had is changed, the session terminates, and a repeated fetch wants nothing. PUSH: the same histories with 1-2 pushed refs, every ancestor-closed set of commits the remote already has (its refs are the haves), optionally a stray table on the remote and commits sharing a table: after the session the remote refs point at the pushed commits, all their ancestors, tables, blocks and indices are there and identical, nothing unreachable was transferred, nothing the remote had changed, and a repeated push transfers no packfile and changes nothing. Go map iteration order inside the negotiator is a choice point in a second fetch obligation. The real HTTP server (wrgld, not in this repository), pull, the ref updates after a fetch (gated under C10) and the CLI are outside; HTTP and JSON are exercised only by the native replay (httptest).", "8 C09"),
  "C19": ("model_checking", "bounded symbolic execution of the real Sorter with symbolic cells and the run size as one 64-bit SMT variable (all spill patterns), in-memory spill files",
          "Rows <= 3 (quick) / 4 (thorough), 2-3 columns, keys [0]/[1]/[0,1]/[1,0]/none, removed column before/after the key: both outputs hold one row per distinct key in strictly ascending key order, equal to an input row without the removed columns; two outputs agree; spill files deleted on Close.", "4 C19"),
  "C20": ("model_checking", "bounded symbolic execution of index.HashSet operation sequences with symbolic second hash bytes",
